@@ -297,6 +297,76 @@ def check_dataset(job):
     return out
 
 
+def opts_argv(o):
+    """the subsetting options of a TLC dataset as command-line tokens"""
+    g = set(o.get("given", []))
+    f = lambda xs: ",".join(mat.fmt(mat.num(x) if isinstance(x, list) else x) for x in xs)
+    argv = []
+    for name, flag in (("t", "-t"), ("d", "-d"), ("tod", "-tod"), ("o", "-o"), ("l", "-l"), ("lx", "-lx"),
+                       ("latrange", "-latrange"), ("lonrange", "-lonrange"), ("elevrange", "-elevrange"), ("obsrange", "-obsrange")):
+        if name in g:
+            vals = o[name]
+            if name == "lx" and not vals:
+                continue
+            argv += [flag, f(vals)]
+    return argv
+
+
+def check_cli_lists(job):
+    """C03 through the command line: --list-times / --list-locations and the row descriptors of a csv table must show exactly
+    the verified dimensions of the specification (option-to-argument wiring of the driver is inside the loop)."""
+    import io
+    import sys as _sys
+    import verif.driver
+    obj, fmt = job
+    out = {"n": 0, "divs": []}
+    base = {"kind": "cli-lists", "format": fmt, "dataset": {k: obj[k] for k in obj if k != "req"}}
+    if "lx" in obj["opts"].get("given", []) and not obj["opts"]["lx"]:
+        return out
+    paths, climp = write_files(obj, fmt, tag="cl")
+    argv0 = ["verif"] + paths + (["-c" if obj["climType"] == "subtract" else "-C", climp] if climp else []) + opts_argv(obj["opts"])
+
+    def run(extra):
+        old = _sys.stdout
+        buf = io.StringIO()
+        _sys.stdout = buf
+        try:
+            verif.driver.run(argv0 + extra)
+            st = "ok"
+        except SystemExit as e:
+            st = "exit:%s" % (e.code,)
+        except Exception as e:
+            st = exc_site(e) + " " + repr(e)[:100]
+        finally:
+            _sys.stdout = old
+        return st, "\n".join(l for l in buf.getvalue().split("\n") if not l.startswith("\x1b[1;3"))
+    for what, extra in (("times", ["--list-times"]), ("locs", ["--list-locations"])):
+        st, text = run(extra)
+        out["n"] += 1
+        rep = dict(base, argv=argv0[1 + len(paths):] + extra, output=text[:500])
+        if st.startswith("exception"):
+            out["divs"].append((st.split(" ")[0], "%s -> %s" % (" ".join(rep["argv"]), st), rep))
+            continue
+        if obj["err"] and st != "ok":
+            continue          # an empty selection may end in an error exit
+        if st != "ok":
+            out["divs"].append(("cli:list:" + st, "%s ended with %s" % (" ".join(rep["argv"]), st), rep))
+            continue
+        if what == "times":
+            got = [int(l) for l in text.split() if l.strip().lstrip("-").isdigit()]
+            want = [int(t) for t in obj["times"]]
+        else:
+            got = []
+            for l in text.split("\n"):
+                parts = l.split()
+                if len(parts) == 4 and parts[0].lstrip("-").isdigit():
+                    got.append(int(parts[0]))
+            want = [int(x) for x in obj["locs"]]
+        if got != want:
+            out["divs"].append(("cli:list-" + what, "%s: expected %r listed %r" % (" ".join(rep["argv"]), want, got), rep))
+    return out
+
+
 def replay_dataset(rep):
     """Re-run one recorded divergence (./check Cxx --replay file). Returns list of divergences now."""
     obj = dict(rep["dataset"])
